@@ -76,6 +76,11 @@ type VC struct {
 	autoKept []string
 	topVals  map[ssa.Value]Term
 	renderAllDecls bool
+	exitReach []Term
+	inlineBudget int
+	skipped  []*Oblig
+	usedContracts bool
+	Vacuity  string
 }
 
 func (vc *VC) fresh(base string) string {
